@@ -188,6 +188,8 @@ AUDIT = [
     Mut("diffusion-added-twice", T, "            V += Vdiff\n", "            V += 2 * Vdiff\n", rule="R11.1"),
     Mut("vertical-w-overwritten", T, "            if self.vertdiff:\n                W = self.diffuse_vert(num_particles=len(X))\n                Z += W * self.dt\n\n            # Advection\n            if self.vertical_advection:\n                W = force.variables[\"w\"]\n                Z += W * self.dt", "            W = np.zeros_like(Z)\n            if self.vertdiff:\n                W = self.diffuse_vert(num_particles=len(X))\n\n            # Advection\n            if self.vertical_advection:\n                W = force.variables[\"w\"]\n            Z += W * self.dt", rule="R11.1"),
     Mut("benign-vertical-w-summed", T, "            if self.vertdiff:\n                W = self.diffuse_vert(num_particles=len(X))\n                Z += W * self.dt\n\n            # Advection\n            if self.vertical_advection:\n                W = force.variables[\"w\"]\n                Z += W * self.dt", "            W = np.zeros_like(Z)\n            if self.vertdiff:\n                W = W + self.diffuse_vert(num_particles=len(X))\n\n            # Advection\n            if self.vertical_advection:\n                W = W + force.variables[\"w\"]\n            Z += W * self.dt", expect="silent"),
+    Mut("u-v-one-buffer", T, "        U = np.zeros_like(X)\n        V = np.zeros_like(Y)\n\n        # --- Advection ---\n        if self.advection:\n            Uadv, Vadv = self.advect(X, Y, Z, force)\n            U += Uadv\n            V += Vadv\n", "        # --- Advection ---\n        if self.advection:\n            U, V = self.advect(X, Y, Z, force)\n        else:\n            U = V = np.zeros_like(X)\n", rule="R11.3"),
+    Mut("benign-u-v-separate-buffers", T, "        U = np.zeros_like(X)\n        V = np.zeros_like(Y)\n\n        # --- Advection ---\n        if self.advection:\n            Uadv, Vadv = self.advect(X, Y, Z, force)\n            U += Uadv\n            V += Vadv\n", "        # --- Advection ---\n        if self.advection:\n            U, V = self.advect(X, Y, Z, force)\n        else:\n            U = np.zeros_like(X)\n            V = np.zeros_like(Y)\n", expect="silent"),
     Mut("shared-cached-stddev", T, "        self.rng = np.random.default_rng()\n", "        self.rng = np.random.default_rng()\n        if self.diffusion:\n            self.stddev = (2 * self.D / self.dt) ** 0.5\n        if self.vertdiff:\n            self.stddev = (2 * self.Dz / self.dt) ** 0.5\n", rule="R11.1",
         more=((T, "        stddev = (2 * self.D / self.dt) ** 0.5\n        U = stddev", "        stddev = self.stddev\n        U = stddev"), (T, "        stddev = (2 * self.Dz / self.dt) ** 0.5\n        W:", "        stddev = self.stddev\n        W:"))),
     Mut("benign-cached-stddev", T, "        self.rng = np.random.default_rng()\n", "        self.rng = np.random.default_rng()\n        self.stddev_h = (2 * self.D / self.dt) ** 0.5\n", expect="silent",
